@@ -106,7 +106,7 @@ for k, v in notes["sensitivity"].items():
     out.append(wrap("%s: %s" % (k, v), "* ").replace("\n* ", "\n  "))
 # summary over all rounds
 rows = []
-for rdir in ("seeded", "seeded2", "seeded3", "seeded4", "seeded5"):
+for rdir in ("seeded", "seeded2", "seeded3", "seeded4", "seeded5", "seeded6"):
     pr = os.path.join(V, rdir, "results.json")
     if not os.path.exists(pr):
         continue
@@ -157,7 +157,9 @@ ROUNDS = [("seeded2", "6.3 Second round of seeded changes",
           ("seeded4", "6.5 Fourth round of seeded changes",
            "A fourth set of fresh sub-agents, told the summaries of the three earlier changes for their property."),
           ("seeded5", "6.6 Fifth round of seeded changes",
-           "A fifth set of fresh sub-agents, told the summaries of the four earlier changes for their property.")]
+           "A fifth set of fresh sub-agents, told the summaries of the four earlier changes for their property."),
+          ("seeded6", "6.6b Sixth round of seeded changes",
+           "A sixth set of fresh sub-agents, told the summaries of the five earlier changes for their property.")]
 for rdir, title, intro in ROUNDS:
     p2 = os.path.join(V, rdir, "results.json")
     if not os.path.exists(p2):
